@@ -222,7 +222,13 @@ func GetAttr(v Value, attr Value, args ...Value) (Value, error) {
 	switch r.Kind() {
 	case reflect.Struct:
 		strval := CoerceString(attr)
-		retval = r.FieldByName(strval)
+		if f, ok := r.Type().FieldByName(strval); ok {
+			// FieldByName panics for a field promoted through a nil embedded pointer;
+			// for such a value the field does not exist.
+			if fv, err := r.FieldByIndexErr(f.Index); err == nil {
+				retval = fv
+			}
+		}
 		if retval.IsValid() && !retval.CanInterface() {
 			// Unexported fields cannot be read through reflection.
 			retval = reflect.Value{}
